@@ -110,6 +110,18 @@ def main():
         summary.append(row)
         if args.write:
             meta.update({k: v for k, v in row.items() if k not in ("name",)})
+            meta["property"] = target
+            notes = os.path.join(d, "notes.md")
+            if os.path.exists(notes):
+                text = open(notes).read()
+                meta["needs_to_manifest"] = " ".join(
+                    ln.strip() for ln in text.splitlines()
+                    if re.search(r"need|manifest|trigger|requires", ln, re.I))[:1500] or text[:800]
+            meta["what_was_run"] = (
+                "scratch git worktree of /repo HEAD outside /repo and /verif; demo.py on the clean "
+                "worktree (must exit 0); git apply patch.diff; demo.py again (must fail); pinned suite "
+                "`python -m pytest -q -p no:cacheprovider -x tests` (must report 153 passed); "
+                "`check.py <property> --tier quick` with LENA_REPO=<worktree>; worktree removed")
             json.dump(meta, open(meta_path, "w"), indent=1, sort_keys=True)
     n = len(summary)
     print("seeded changes: %d; confirmed: %s; caught by the target's check: %d" % (
